@@ -131,6 +131,7 @@ struct Ctx
     int op_index = 0;
     bool icv_perturbed = false;
     std::set<std::string> seen_memory;
+    uint64_t last_out_digest = 0;
     explicit Ctx(const Plan &p) : plan(p) {}
 
     void violation(const char *cls, std::vector<std::string> props, const Op &op, const std::string &oracle_name, const std::string &detail)
@@ -563,9 +564,11 @@ static void exec_transform(Ctx &c, const Op &op)
         if (m.noop_before != m.noop_after)
             c.violation("noop-modified", {prop}, op, "size 0 / zero columns is a no-op", "word " + std::to_string(first_diff_bits(m.noop_before, m.noop_after)) + " of src|dst changed");
         r.hash = fnv_vec(m.noop_after, r.hash);
+        c.last_out_digest = 0; // a no-op leaves the (garbage) destination as it was: nothing to compare across fills
         return;
     }
     r.hash = fnv_vec(m.out, r.hash);
+    c.last_out_digest = fnv_vec(m.out, 1);
     std::vector<uint64_t> expect, expect_mid;
     std::string oname;
     switch (op.kind)
@@ -686,6 +689,7 @@ static void exec_merkle(Ctx &c, const Op &op)
     std::vector<uint64_t> out = run(mc, op.dirty_bufs, op.garbage_seed, true, mst, mroot);
     account_main(c, op, mst, op.rows);
     r.hash = fnv_vec(out, r.hash);
+    c.last_out_digest = fnv_vec(out, 1);
 
     if (op.rows == 1)
         r.probes.insert("rows==1");
@@ -782,6 +786,7 @@ static void exec_copy(Ctx &c, const Op &op)
     account_main(c, op, st, std::max<uint64_t>(trip, 1));
     std::vector<uint64_t> out = D.vec();
     r.hash = fnv_vec(out, r.hash);
+    c.last_out_digest = fnv_vec(out, 1);
     if (op.size == 0)
         r.probes.insert("copy_size0");
     if (op.threads < 1)
@@ -835,8 +840,12 @@ static uint64_t shape_hash_of(const Plan &p)
     return h;
 }
 
-RunResult run_plan(const Plan &p)
+RunResult run_plan(const Plan &p0, uint64_t garbage_salt)
 {
+    Plan p = p0;
+    if (garbage_salt)
+        for (auto &o : p.ops)
+            o.garbage_seed ^= garbage_salt;
     Ctx c(p);
     c.res.hash = fnv_str(p.to_json().str(), 0xcbf29ce484222325ULL);
     c.res.shape_hash = shape_hash_of(p);
@@ -849,6 +858,8 @@ RunResult run_plan(const Plan &p)
         const Op &op = p.ops[i];
         c.op_index = (int)i;
         c.res.ops++;
+        uint64_t hash_before = c.res.hash;
+        (void)hash_before;
         c.res.kinds.push_back(plan::kind_name(op.kind));
         if (g_trace_ops)
         {
@@ -879,6 +890,8 @@ RunResult run_plan(const Plan &p)
             delete_slot(c, op.obj < 0 ? 0 : op.obj, op);
             break;
         }
+        c.res.op_digest.push_back(c.last_out_digest);
+        c.last_out_digest = 0;
     }
     Op endop;
     endop.kind = plan::K_DELETE_OBJECT;
@@ -892,6 +905,32 @@ RunResult run_plan(const Plan &p)
         delete_slot(c, s, endop);
     c.res.hash = fnv_u64(c.res.violations.size(), c.res.hash);
     return c.res;
+}
+
+RunResult run_plan_checked(const Plan &p)
+{
+    RunResult r = run_plan(p, 0);
+    if (!p.garbage_differential)
+        return r;
+    RunResult r2 = run_plan(p, 0x5bd1e9955bd1e995ULL);
+    r.ref_steps += r2.steps + r2.ref_steps;
+    r.probes.insert("garbage_differential_run");
+    for (size_t i = 0; i < r.op_digest.size() && i < r2.op_digest.size(); i++)
+        if (r.op_digest[i] != r2.op_digest[i])
+        {
+            Violation v;
+            v.cls = "uninitialised-read";
+            const Op &op = p.ops[i];
+            v.props = {"C18"};
+            v.op_index = (int)i;
+            v.op_kind = plan::kind_name(op.kind);
+            v.oracle = "outputs identical under two different garbage fills of fresh heap blocks, scratch and destination buffers";
+            v.detail = "the op's output differs between the two fills";
+            r.violations.push_back(v);
+            r.hash = fnv_str(v.cls + v.oracle, r.hash);
+            break;
+        }
+    return r;
 }
 
 js::Value result_json(const RunResult &r, bool with_detail)
